@@ -13,6 +13,7 @@ import SwV.Lemmas.C05c
 import SwV.Lemmas.C05d
 import SwV.Lemmas.C05e
 import SwV.Lemmas.C05f
+import SwV.Lemmas.C05g
 
 namespace SwV.Props.C05
 open SwV.Model.C05 SwV.Spec.C05 SwV.Lemmas.C05
@@ -143,6 +144,26 @@ theorem compactMap_judges_accept_partial (batch : Nat) (pre : List Op) (op : Op)
     (h : admFrom batch [] (pre ++ [op]) = true) :
     judgesAccept batch (execL batch [] pre) (execR [] pre) op :=
   judges_accept batch _ _ op (run_results batch pre op h).2.1
+
+/-- the same for the REFINED judges the driver runs (`setJudgeH`/`getJudgeH` of the Spec: the recorded
+    class `…/stale-offset-high-byte` is kept only for a high offset byte the key was stored with before;
+    any other high byte — e.g. the byte of a neighbouring entry — gets a class of its own): on admissible
+    sequences the model's results are never rejected by them either, whatever history list they are given -/
+theorem compactMap_refined_judges_accept_partial (batch : Nat) (pre : List Op) (op : Op) (his : List Nat)
+    (h : admFrom batch [] (pre ++ [op]) = true) :
+    judgesAcceptH batch (execL batch [] pre) (execR [] pre) his op :=
+  judges_acceptH batch _ _ his op (judges_accept batch _ _ op (run_results batch pre op h).2.1)
+
+/-- non-vacuity of the refinement: a key stored once at offset 2^32+8 (high byte 1) that reads back with
+    offset 8 (high byte 0, a byte it never had: what an in-window insertion that moves `values` without
+    `valuesExtra` produces) is rejected with the new class, while the recorded defect's output (an OLDER
+    byte of the same key) keeps the recorded class, and a correct answer passes -/
+example : getJudgeH 30 (some (4294967304, 300)) [1] (some (30, 8, 300))
+    = some "CompactMap.Get/offset-high-byte-never-stored-for-key" := by decide
+example : getJudgeH 5 (some (8589934596, 44)) [2, 1] (some (5, 4294967300, 44)) = some staleClass := by decide
+example : getJudgeH 5 (some (8589934596, 44)) [2, 1] (some (5, 8589934596, 44)) = none := by decide
+example : visitJudgeH (fun k => if k = 20 then [1] else [0]) [(10, 5, 1), (20, 4294967304, 2)] [(10, 5, 1), (20, 8, 2)]
+    = some "CompactMap.AscendingVisit/offset-high-byte-never-stored-for-key" := by decide
 
 /-- non-vacuity: an admissible sequence (batch = 2) that appends, inserts out of order into the
     overflow list, overwrites an overflow entry, deletes it twice, opens a new section behind a full
